@@ -329,7 +329,9 @@ C20_Ante(e, p, m, m2, M) == e.ph /\ G1Lines(e) # {}
 \* a rejected call may have consulted the hooks before it was rejected; the
 \* property speaks about moves, i.e. about what was emitted
 C20_Count(e, p, m, m2, M) ==
-  (e.ph /\ e.out = "ok") => Len(e.hooks) = Cardinality(G1Lines(e))
+  /\ (e.ph /\ e.out = "ok") => Len(e.hooks) = Cardinality(G1Lines(e))
+  \* "every REGISTERED hook": one that was removed (by the recorder's own account) is not called any more
+  /\ ~e.ph => e.hooks = <<>>
 C20_Geometry(e, p, m, m2, M) ==
   (e.ph /\ e.out = "ok" /\ ~M.xf /\ Len(e.hooks) = Cardinality(G1Lines(e))) =>
     LET ms == PrefixStates(m, e.lines)  g1 == G1Seq(e) IN
